@@ -563,7 +563,7 @@ def rule_apply_examines_whole_plan(ctx, rid, rr):
 
 
 # ------------------------------------------------------------------------------------------------ stale totals, evaluated
-def rule_stale_totals(ctx, rid, rr, stale_tot):
+def rule_stale_totals(ctx, rid, rr):
     """The stale-section totals and the stale check's reports, evaluated on one abstract plan: calls a1, a2 (same scope, same
     kind of store), a3 (same scope, no store), b (other scope, store) and a stored literal.  The totals function must announce
     exactly one total per distinct reported scope, with the multiplicity of that scope among the Call nodes, and the stale
@@ -623,14 +623,12 @@ def rule_stale_totals(ctx, rid, rr, stale_tot):
     stubs["fully_qualified_name"] = Stub("fqn", lambda x: ("fqn", getattr(x, "name", None) or repr(x)))
     interp = Interp(m, stubs=stubs, ext={"builtins.type": lambda x: interp.class_val(x.cls) if isinstance(x, Obj) and x.cls else type(x),
                                          "collections.Counter": lambda it=(): _c.Counter(list(it))})
-    params = {"plan": plan, "registry": registry, "progress_observer": observer}
+    from .evalrules import eval_totals_site, totals_site
+    host_tot, call_tot = totals_site(m, rr, "stale")
     try:
-        args = [params[p] for p in stale_tot.pos_params if p in params]
-        if len(args) != len([p for p in stale_tot.pos_params if p not in stale_tot.defaults]):
-            raise AnalysisError(f"unexpected parameters of {stale_tot.qualname}: {stale_tot.pos_params}")
-        interp.call_func(stale_tot, None, args, {})
+        eval_totals_site(interp, m, rr, "stale", {"plan": plan, "observer": observer, "registry": registry})
     except AbsRaise as e:
-        raise AnalysisError(f"abstract evaluation of {stale_tot.qualname} raised {e.value!r}")
+        raise AnalysisError(f"abstract evaluation of the stale totals ({norm(call_tot)[:60]}) raised {e.value!r}")
     kw = {"plan": plan, "registry": registry, "retry": Stub("retry", lambda f: f), "max_workers": None, "fresh_time": None,
           "progress_observer": observer}
     for p in stale_f.params:
@@ -654,6 +652,6 @@ def rule_stale_totals(ctx, rid, rr, stale_tot):
         dup = dup or sc in got
         got[sc] = am
     ok = ok_rep and not dup and all(t[0] == "stale" for t in totals) and got == dict(want)
-    ctx.ob(rid, f"{stale_tot.short}~{rr.stalecb.short}", bool(ok), loc(stale_tot),
+    ctx.ob(rid, f"{host_tot.short}/stale-totals~{rr.stalecb.short}", bool(ok), loc(host_tot, call_tot),
            "each scope's announced total equals the number of calls the stale check reports under that scope (evaluated: 2, 1, 1)" if ok else
            f"totals and reports disagree per scope: announced {totals}, reported {sorted((getattr(n, 'name', ''), v[0][1]) for n, v in rep.items()) if ok_rep else rep}")
